@@ -248,7 +248,8 @@ def run_queries(rec, F, cnt, sig):
         t.setDrivingForceMethod(rec['method'])
     ordered = db == 'nicral'
     prev_T, prev_x = None, None
-    FAM = {'df': ('df',), 'curv': ('curv',), 'growth': ('df', 'curv'), 'imp': ('df', 'curv'), 'interdiff': ('diff',), 'tracer': ('diff',), 'ic': ()}
+    # (curvatureFactor with computeSearchDir=True calls getDrivingForce internally when it has to search for the two-phase region, so it can start from the driving-force sets too)
+    FAM = {'df': ('df',), 'curv': ('curv', 'df'), 'growth': ('df', 'curv'), 'imp': ('df', 'curv'), 'interdiff': ('diff',), 'tracer': ('diff',), 'ic': ()}
     cache = {'df': False, 'curv': False, 'diff': False}     # per cache family: does the warm object hold composition sets from an earlier call?
     # (removeCache=True drops a family's sets only AFTER the call that passes it)
     for k, op in enumerate(rec['ops']):
@@ -263,7 +264,10 @@ def run_queries(rec, F, cnt, sig):
             continue
         had_cache = any(cache[f] for f in FAM[q])
         for f in FAM[q]:
-            cache[f] = not op.get('rc', False)
+            if q == 'curv' and f == 'df':
+                cache[f] = cache[f] or not op.get('rc', False)      # the internal call happens only when a search is needed: keep the conservative answer
+            else:
+                cache[f] = not op.get('rc', False)
         opq = dict(op)
         if op.get('batch') and q == 'df':
             # batched call: this point together with two others; element 0 must equal the single call
